@@ -6,15 +6,28 @@
    does not predict the interleaving; the extracted oracle validates the recorded trace
    (canon() therefore compares only the deterministic 'unc' lines).
 """
-import random
+import os, random
 
 PID = 'C04'
+# the extended search of the generic runner (after a broken proof/correspondence without an oracle hit) is capped for C04: the
+# quick tier stays below two minutes also when something broke (was 220 s); one round of the 'search' population takes 10-15 s
+os.environ.setdefault('VERIF_SEARCH_S', '40')
 HEADER = []
 T0 = 2000000000
 TIMEOUT = 3000   # real-thread cases queue for one of <par> machine-wide slots
-RULE = ('exec: the REAL Checkable::ExecuteCheck under the virtual clock with a command that keeps its result: control, stored result '
-        'stamped in the future, passive result racing the start, stale results, passive in flight + random mixes; after ANY result '
-        'processing the next ExecuteCheck must start the command; run-quiet: max=1, slot holder paused/deleted mid-check, silence '
+RULE = ('tl: quiet timelines, 1-3 hosts that only run when forced or explicitly enabled, synchronous or asynchronous native check '
+        'command that runs exactly until the script opens its gate; steps force / enable / disable / close / open period / pause / '
+        'resume / reschedule / hold / release applied to the real objects while the real scheduler and pool run; after every step the '
+        'harness waits for a stable state (read from idle/pending/m_PendingChecks/force_next_check) and prints executions started/'
+        'finished, clears of force_next_check, the flag and the set of every checkable; the extracted step function decides the '
+        'expected lines (14 templates: second request during a forced check, the same for an asynchronous command, check slower '
+        'than its interval, resume while pending, one slot, ... + random ones under two rules that keep the outcome independent of '
+        'timing); run: 0/30/60 % of the checkables have an ASYNCHRONOUS command (result delivered by another thread like '
+        'PluginCheckTask, slot counted like PluginCheckTask), up to a quarter of the slots run longer than their interval or until '
+        'a timeout of three intervals; exec: the REAL Checkable::ExecuteCheck under the virtual clock with a command that keeps its result: control, stored result '
+        'stamped in the future, passive result racing the start, stale results, passive in flight, command_endpoint (connected / '
+        'not connected) + random mixes; after ANY result processing the next ExecuteCheck must start the command, before it must not; '
+        'run-quiet: max=1, slot holder paused/deleted mid-check, silence '
         'afterwards (lost wake-up); run: 10 % of the checkables deliver every 3rd result stamped older than the stored one; pcr: the REAL Checkable::ProcessCheckResult (local, origin null) under the virtual clock from the never-checked state: all result '
         'histories of length <= 3 over {OK,WARNING,CRITICAL} x {host,service} x max_check_attempts {1,2,3} (covers every pre state type x '
         'has-result x OK/non-OK x max 1/>1 combination) + random longer ones incl. passive results; next_check diffed against the '
@@ -22,21 +35,26 @@ RULE = ('exec: the REAL Checkable::ExecuteCheck under the virtual clock with a c
         'result, offset < 2^31); run: n in 5..300 checkables (hosts and services), max_concurrent_checks in {1,2,8,64}, intervals '
         '50-400 ms, fast/slow/throwing/state-flipping commands, storms of pause/resume(+quick flip)/reschedule/force/enable/disable/'
         'period/create/delete at 100-400 ops/s, a third of the checkables calm (only reschedule/force) so that liveness windows span '
-        'the run. non-trivial = run case with >= 50 check executions and >= 100 snapshots, or an unc case; distinct = script text')
+        'the run. non-trivial = run case with >= 50 check executions and >= 100 snapshots, a complete timeline, or a deterministic case; distinct = script text')
 TRUSTED = ['model: coq/Sched/SchModel.v (critical sections of CheckThreadProc, ExecuteCheckHelper, ObjectHandler, NextCheckChangedHandler, '
-           'ExecuteCheck single-flight guard, pending-check counter), coq/Sched/SchNext.v (UpdateNextCheck over Q)',
+           'ExecuteCheck single-flight guard with synchronous / asynchronous / remote commands, pending-check counter), coq/Sched/SchNext.v (UpdateNextCheck over Q)',
            'real-thread runs SAMPLE interleavings; the theorems cover all interleavings of the model at lock granularity, the tie shows '
            'that every sampled execution satisfies what the theorems establish (trace validation, no step-by-step replay: no hook H3 needed)',
            'harness reads CheckerComponent::m_IdleCheckables/m_PendingCheckables under m_Mutex (-fno-access-control) and records check '
-           'command start/end, next_check updates (signal OnNextCheckChanged) with clock brackets taken on the same thread',
+           'command start/end, ExecuteCheck entries (OnLastCheckStartedChanged), clears of force_next_check (OnForceNextCheckChanged), '
+           'next_check updates (OnNextCheckChanged) with clock brackets taken on the same thread; the order of the records is the order in which one mutex was taken',
+           'asynchronous commands are a native stand-in for PluginCheckTask (count the slot, return, deliver the result from another thread); real plugin processes are not spawned',
+           'timelines: the canonical schedule that drives the extracted step function between two script steps and the stability test are hand-written OCaml / C++',
            'timing checks (N/W/F/Q records) are evaluated by hand-written OCaml glue in ocaml/ops_sch.ml, not by extracted code',
-           'hook H1 (virtual clock) for the unc family only']
+           'source facts coq/Facts/Facts_c04.v (site of SetForceNextCheck(false), sites of m_CheckRunning = false in ExecuteCheck) are recognised by regular expressions in tools/facts_c04.py',
+           'hook H1 (virtual clock) for the unc/pcr/exec families only']
 ASSUMPTIONS = ['binary64 rounding of fmod/division in UpdateNextCheck is outside the model: the Q result is strict, a one-ulp tie adj = interval is not excluded',
-               'check commands process their result synchronously inside ExecuteCheck (native function); plugin processes that outlive ExecuteCheckHelper are not modelled',
-               'passive check results arriving while an active check runs clear m_CheckRunning (checkable-check.cpp:105); outside the quantifier, not generated',
-               'liveness is proved as enabledness only (C04_progress_partial); at run time only its timed reading is a violation: the SAME head of the next-check index stays due with a free slot for > 3 s + 10 x max observed oversleep (decided from snapshots taken under m_Mutex); waiting for a slot, for earlier-due checkables, for a pool thread or for the CPU is never flagged; gaps between starts (W records) are statistics only',
-               'a forced request is flagged only if it was never served although snapshots show the checkable in idle behind a head whose key is beyond anything its own key can be (request + Imax + dmax + 1 s + 10 x oversleep); at most <par> real-thread cases run at a time machine-wide (flock slots in /var/tmp/verif_c04_slots)',
-               'all checkables are in the local zone (same_zone = true) in the real-thread runs']
+               'passive check results arriving while an active check runs clear m_CheckRunning (checkable-check.cpp:105); outside the quantifier, not generated in the real-thread runs',
+               'a force request that arrives while an asynchronous check of the same checkable is in flight is consumed by a dispatch that returns at the m_CheckRunning guard: no further execution (the exception stated in C04_forced); the oracle accepts exactly that: an ExecuteCheck entered after the request began that returned at the guard while an execution was in flight',
+               'liveness is proved as enabledness only (C04_progress_partial); at run time only its timed reading is a violation: the SAME head of the next-check index stays due with a free slot for > 2 s + 10 x max observed oversleep (decided from snapshots taken under m_Mutex); waiting for a slot, for earlier-due checkables, for a pool thread or for the CPU is never flagged; gaps between starts (W records) are statistics only',
+               'a forced request is flagged if its clear of force_next_check is not followed by an ExecuteCheck of the checkable (order of records, timing free), or if it was never served although snapshots show the checkable in idle behind a head whose key is beyond anything its own key can be (request + Imax + dmax + 0.1 s + 10 x oversleep); at most <par> real-thread cases run at a time machine-wide (flock slots in /var/tmp/verif_c04_slots)',
+               'timelines: a state counts as stable when the condition holds unchanged for 150 ms (longer when the harness observes stalls); a scheduler thread preempted for longer than that inside the two statements between the insertion into pending and the clear of force_next_check would be misread',
+               'all checkables are in the local zone (same_zone = true) in the real-thread runs; command_endpoint is exercised by direct ExecuteCheck calls only']
 
 
 def unc_case(rnd, k):
